@@ -160,6 +160,40 @@ pub fn run_case(_ctx: &Ctx, case: &Value, tag: usize, rep: &mut Report, mb: &mut
                             }
                         }
                         rep.nontrivial(format!("json-props|{m}|{n}"));
+                        // with R required (listed) properties before the additional ones, and one optional listed property
+                        if n <= 6 {
+                            for r in 1..=3usize {
+                                for with_opt in [false, true] {
+                                    let mut props = serde_json::Map::new();
+                                    let mut req = vec![];
+                                    for i in 0..r { props.insert(format!("r{i}"), json!({"const":0})); req.push(json!(format!("r{i}"))); }
+                                    if with_opt { props.insert("o0".into(), json!({"const":0})); }
+                                    let g = Gram::Json(json!({"type":"object","properties":props,"required":req,"additionalProperties":{"const":0},"minProperties":m,"maxProperties":n}));
+                                    let base = w.matcher(&g);
+                                    if base.is_error() {
+                                        let msg = base.get_error().unwrap_or_default();
+                                        if msg.contains("only supported when") { rep.skip("min/maxProperties-with-optional-listed-keys-unsupported"); continue; }
+                                        if n >= r { rep.fail("spec", "c09:json-props-rejected", format!("min/maxProperties {m},{n} with {r} required rejected: {}", crate::eng::err_class(&base.get_error().unwrap_or_default())), json!({"case": case, "grammar": g.to_json()})); }
+                                        continue;
+                                    }
+                                    for extra in 0..=(n + 2).saturating_sub(r).min(6) {
+                                        for opt_present in if with_opt { vec![false, true] } else { vec![false] } {
+                                            rep.evaluations += 1;
+                                            let mut body: Vec<String> = (0..r).map(|i| format!("\"r{i}\":0")).collect();
+                                            if opt_present { body.push("\"o0\":0".into()); }
+                                            body.extend((0..extra).map(|i| format!("\"k{i}\":0")));
+                                            let c = body.len();
+                                            let s = format!("{{{}}}", body.join(","));
+                                            let a = accepts(&base, s.as_bytes());
+                                            let exp = c >= m && c <= n;
+                                            if a != exp {
+                                                rep.fail("spec", "c09:json-props-count", format!("min/maxProperties {m},{n}, {r} required{}: {c} members accepted={a}, expected {exp}", if with_opt { " + 1 optional" } else { "" }), json!({"case": case, "grammar": g.to_json(), "instance": s}));
+                                            }
+                                        }
+                                    }
+                                }
+                            }
+                        }
                     }
                     _ => {
                         let g = Gram::Json(json!({"type":"array","prefixItems":[{"const":"p"}],"items":{"enum":[1,2]},"minItems":m,"maxItems":n}));
